@@ -15,7 +15,7 @@ from .rules import pairs as PR
 from .rules import codes as CD
 from .rules import members as MB
 from .rules.arity import rule_arity
-from .rules.wiring import rule_passthrough_sort, rule_passthrough_engine, rule_counter, rule_globalidx, rule_sorted, rule_infresolve, rule_uniquefrom, rule_emptyidx, rule_fillnone, rule_aligned, rule_autorefuse, rule_autoparam, rule_blockbcast, rule_emptycohorts, rule_axisorder, rule_normform, rule_absentmask, rule_passthrough_options, rule_predfamily, rule_scanmissing, rule_blocklabels, rule_axisrange, rule_qrange, rule_dtypenorm
+from .rules.wiring import rule_passthrough_sort, rule_passthrough_engine, rule_counter, rule_globalidx, rule_sorted, rule_infresolve, rule_uniquefrom, rule_emptyidx, rule_fillnone, rule_aligned, rule_autorefuse, rule_autoparam, rule_blockbcast, rule_emptycohorts, rule_axisorder, rule_normform, rule_absentmask, rule_passthrough_options, rule_predfamily, rule_scanmissing, rule_partialunknown, rule_blocklabels, rule_axisrange, rule_qrange, rule_dtypenorm
 
 PROPERTIES = {
     "C01": {
@@ -39,7 +39,7 @@ PROPERTIES = {
         "explanation": "R-TRUTHY over every boolean context of every function; R-FILLFLOW over the fill sinks; R-PARALLEL over the min_count branch; R-IDENTITYCODES: labels are their own codes only for integer labels and the index 0..n-1, both ends masked",
     },
     "C12": {
-        "rules": [rule_lazy, M.rule_combinebypass, CD.rule_placeholder],
+        "rules": [rule_lazy, M.rule_combinebypass, CD.rule_placeholder, rule_partialunknown],
         "thorough": [selftest, seeded_regression],
         "technique": "predicate abstraction over dask-ness atoms on the CFG (bitset valuations, no solver) with function summaries",
         "level_text": "Static, all-paths: on every path of the API entry points (and of every function they call while building a "
@@ -107,7 +107,7 @@ PROPERTIES = {
         "explanation": "R-SENTINEL on _ravel_factorized; R-PAIRS[groupers]; R-CODEWIDTH: every code array is an intp producer so code arithmetic cannot wrap; R-IDENTITYCODES",
     },
     "C08": {
-        "rules": [M.rule_sentinel_offset, M.rule_copermute, PR.rule_pairs_collapse, PR.rule_pairs_outinds, CD.rule_codewidth, PR.rule_layout, rule_axisrange, PR.rule_pairs_broadcast, PR.rule_pairs_broadcast_nax, rule_axisorder, PR.rule_pairs_transpose, rule_axiskey],
+        "rules": [M.rule_sentinel_offset, M.rule_copermute, PR.rule_pairs_collapse, PR.rule_pairs_outinds, CD.rule_codewidth, PR.rule_layout, rule_axisrange, PR.rule_pairs_broadcast, PR.rule_pairs_broadcast_nax, rule_axisorder, PR.rule_pairs_transpose, rule_axiskey, rule_partialunknown],
         "thorough": [selftest, seeded_regression],
         "technique": "CFG must-pass-through of a masked sentinel restore; permutation agreement of labels and values",
         "level_text": "Static, all-paths: after per-slice offsetting of codes, every path to return restores the missing-label code under a "
